@@ -275,6 +275,12 @@ def replyDomain : List (List Nat) :=
 
 def replyChildren (cs : List Nat) : List RChild := cs.filterMap fun i => replyUniverse[i]?
 
+/-- what the call of channel `c` that waits for it makes of a `type='error'` reply with the children
+`cs`: the room's refusal (`joinError` / `leaveError`) iff the scan finds the error element; otherwise
+it is not a refusal (the call ends with a plain error and — for `Leave` — nothing is cleaned up) -/
+def replyAct (leave : Bool) (c : Nat) (cs : List RChild) : Option Act :=
+  if (findError cs).isSome then some (if leave then .leaveError c else .joinError c) else none
+
 inductive Reach (addr0 : Nat → Nat) : St → Prop
   | init : Reach addr0 (init addr0)
   | step {s s' a} : Reach addr0 s → step s a = some s' → Reach addr0 s'
